@@ -309,6 +309,66 @@ def cut_stream(res, rng, tier):
             res.violations.append(dict(sig=dict(helper="pretty_cut", what="raised"), case=case, observed=repr(e)[:200], expected="bins", what="pretty_cut raised"))
 
 
+def float_model_stream(res, rng, tier):
+    """Tie A in IEEE-754 for nansum / nanmean / nanvar: the real functions against Model/NanopsFloat.v, a bit-exact
+    transcription in Coq's primitive floats (array_split pieces, piece sums from 0.0 skipping NaN, merge from 0.0, mean,
+    elementwise deviations, squares), evaluated by vm_compute: every magnitude, infinities, NaN, 1-8 threads, ddof 0-2."""
+    import os
+    import subprocess
+    from groupby_lib import nanops
+    from ..common import VERIF, COQ
+    alpha = [float("nan"), 1.0, 2.5, -3.0, 0.5, 0.1, 0.7, 4.0, 1e16, -1e16, 1e8 + 0.1, float(2**60), -7e15, 1e9 + 0.125, float("inf"), float("-inf"), 1e308, -1e308, 5e-324, -0.0, 1e-300, 1e150, 1e200]
+
+    def lit(x):
+        x = float(x)
+        if x != x:
+            return "nan"
+        if x == float("inf"):
+            return "infinity"
+        if x == float("-inf"):
+            return "neg_infinity"
+        h = x.hex()
+        return "(" + h + ")" if h.startswith("-") else h
+    cases = []
+    import warnings
+    for t in range(500 if tier == "quick" else 5000):
+        L = rng.randint(1, 14)
+        vals = [rng.choice(alpha if rng.random() < 0.6 else alpha[:8]) for _ in range(L)]
+        fn = rng.choice([0, 1, 2, 2])
+        nt = rng.choice([1, 1, 2, 3, 4, 5, 8])
+        ddof = rng.choice([0, 1, 1, 2]) if fn == 2 else 0
+        arr = np.array(vals, dtype="float64")
+        with warnings.catch_warnings():
+            warnings.simplefilter("ignore")
+            try:
+                out = [nanops.nansum, nanops.nanmean, nanops.nanvar][fn](arr, n_threads=nt, **({"ddof": ddof} if fn == 2 else {}))
+            except Exception as e:  # noqa: BLE001
+                res.violations.append(dict(sig=dict(helper="nanops", stream="float-model", what="raised", func=fn), case=dict(values=[lit(v) for v in vals], n_threads=nt, ddof=ddof), observed=repr(e)[:200], expected="a number",
+                                           what="nanops raised on a float64 array"))
+                continue
+        cases.append((fn, nt, ddof, vals, float(out)))
+        res.note_case(repr(("nanops-float-model", fn, nt, ddof, [lit(v) for v in vals])), True)
+        res.count("stream", "float-model")
+    d = VERIF / ".cache" / "nfloat" / str(os.getpid())
+    d.mkdir(parents=True, exist_ok=True)
+    body = ";\n  ".join(f"({fn}%nat, {nt}%nat, {ddof}%nat, [{'; '.join(lit(v) for v in vals)}], {lit(out)})" for fn, nt, ddof, vals, out in cases)
+    (d / "cases.v").write_text("From Coq Require Import List ZArith PrimFloat.\nFrom GL Require Import Model.NanopsFloat.\nImport ListNotations.\nOpen Scope float_scope.\n"
+                               "Definition cases : list (nat * nat * nat * list float * float) :=\n  [" + body + "].\nEval vm_compute in map check_nanop cases.\n")
+    p = subprocess.run(["timeout", "600", "coqc", "-Q", str(COQ / "theories"), "GL", "cases.v"], cwd=d, stdout=subprocess.PIPE, stderr=subprocess.STDOUT)
+    txt = p.stdout.decode(errors="replace")
+    flags = [w for w in txt.replace("[", " ").replace("]", " ").replace(";", " ").split() if w in ("true", "false")]
+    for f in d.iterdir():
+        f.unlink()
+    d.rmdir()
+    if p.returncode != 0 or len(flags) != len(cases):
+        res.model_mismatches.append(dict(case="nanops-float-model", impl="-", model=f"coqc failed or printed {len(flags)} results for {len(cases)} cases: " + txt[-400:]))
+        return
+    for (fn, nt, ddof, vals, out), ok in zip(cases, flags):
+        if ok != "true":
+            res.model_mismatches.append(dict(case=dict(stream="nanops-float-model", func=["nansum", "nanmean", "nanvar"][fn], n_threads=nt, ddof=ddof, values=[lit(v) for v in vals]), impl=lit(out),
+                                             model="Model/NanopsFloat gives another bit pattern"))
+
+
 def run(res, tier="quick", seed=0, widen=False):
     rng = random.Random(seed * 31 + 20 + (1 if widen else 0))
     res.rule = ("nanops: seeded 1-D arrays of length 1..12 (float64/float32 with NaN at any place, int64, the narrow integer dtypes over their full range, values with offsets up to 1e15 / epoch nanoseconds) x 7 functions x n_threads 1..8 vs NumPy and (sum/min/max) vs the extracted "
@@ -318,6 +378,7 @@ def run(res, tier="quick", seed=0, widen=False):
     global DRV
     DRV = Driver()
     nanops_stream(res, rng, tier)
+    float_model_stream(res, random.Random(seed * 31 + 2020 + (1 if widen else 0)), tier)
     dot_stream(res, rng, tier)
     bools_stream(res, rng, tier)
     cut_stream(res, rng, tier)
